@@ -2,7 +2,7 @@
 From Coq Require Import List ZArith Bool.
 From JSL Require Import Base.Res Base.ListX SM.Types SM.Util SM.Handler SM.Step SM.Inv SM.Example
   SMP.Post SMP.PostApply SMP.Offers SMP.ClockStep SMP.Clock SM.Middleware SM.ExampleShift SMP.StepInv SMP.LiftSide
-  SMP.OutputDone SMP.Reflect SMP.FeasView SMP.Feasible SMP.LiftProv SMP.ProvBatch SMP.Durations SMP.Setup.
+  SMP.OutputDone SMP.Reflect SMP.FeasView SMP.Feasible SMP.LiftProv SMP.ProvBatch SMP.Durations SMP.Setup SM.Events SMP.EventsRun.
 Import ListNotations.
 
 (* Every IDLE->SETUP transition that is applied (for any instance, oracle/seed, state): the setup time
@@ -204,3 +204,15 @@ Proof.
   destruct (runG sh_sigma sh_inst side2 400 sh_init0 3%Z true (repeat 1%Z 5)) as [[r m]|] eqn:E; [|vm_compute in E; discriminate].
   exists r, m. split; [eapply reachG_reach; eapply runG_reach; exact E|]. vm_compute in E. inversion E; subst. vm_compute. repeat split; auto.
 Qed.
+
+(* over whole runs of every instance: every IDLE -> SETUP of every micro-log pays matrix[(mounted tool, tool of the operation)]
+   read in the state it was applied in, mounts that tool and blocks the machine until now + that time (ev_setup), and no
+   other event changes any mounted tool (ev_tool_frame) *)
+Theorem C09_setup_events_hold_along_every_run :
+  forall (sigma : oracle) (i : inst) (fuel : nat) (x0 : state) (joker0 : Z) (ta : bool) (r : result) (m : mw)
+         (a : Z) (r' : result) (m' : mw) (lg : mlog),
+    inst_nonneg_b i = true ->
+    clock_b x0 = true -> wfs_b i x0 = true -> fresh2_b i x0 = true -> nodep_b x0 = true -> pre_ok_b x0 = true ->
+    reach sigma i fuel x0 joker0 ta r m -> mw_step sigma i fuel r m a = MOk r' m' lg -> chain_events i (r_x r) lg.
+Proof. intros sigma i fuel x0 joker0 ta r m a r' m' lg Hnn. apply run_events_ok; auto. Qed.
+Print Assumptions C09_setup_events_hold_along_every_run.
